@@ -184,7 +184,7 @@ def main(chk):
         uniq = [c for c in uniq if r0.random() < dev]
     cases = list(enumerate(uniq))
     random.Random(chk.seed).shuffle(cases)          # balance the shards
-    nsh = max(1, min(tlc.NPROC, len(cases) // 200 + 1), len(cases) // 1500 + 1)      # <= ~150k events per TLC batch
+    nsh = max(1, min(tlc.NPROC, len(cases) // 200 + 1), len(cases) // 3000 + 1)      # <= ~300k events per TLC batch
     paths = [os.path.join(chk.work, "traces_%02d.ndjson" % i) for i in range(nsh)]
     jobs = [(cases[i::nsh], chk.seed, paths[i], EXHAUSTIVE_SUBSETS_UP_TO) for i in range(nsh)]
     # 3. record
